@@ -8,9 +8,12 @@ import (
 	"os"
 	"runtime/debug"
 	"sort"
+	"strings"
 
 	"verifharness/core"
 )
+
+const keyRDataAlias = "returndata-aliases-caller-memory"
 
 func clip(b []byte) string {
 	s := hex.EncodeToString(b)
@@ -76,27 +79,33 @@ func clipS(s string) string {
 }
 
 // firstDivergence re-runs both sides in recording mode and describes the first
-// step at which the two traces differ (for the witness only; never a verdict).
-func firstDivergence(w *World) map[string]interface{} {
+// step at which the two traces differ (for the witness and for the key suffix only;
+// never a verdict). The value pushed by GAS differs by design and is skipped.
+func firstDivergence(w *World) (string, map[string]interface{}) {
 	k := runKVM(w, true)
 	g := runRef(w, true)
 	n := len(k.Rec)
 	if len(g.Rec) < n {
 		n = len(g.Rec)
 	}
-	same := func(a, b stepRec) bool {
+	same := func(i int) bool {
+		a, b := k.Rec[i], g.Rec[i]
 		if a.Depth != b.Depth || a.PC != b.PC || a.Op != b.Op || len(a.Stack) != len(b.Stack) || (a.Err == "") != (b.Err == "") {
 			return false
 		}
-		for i := range a.Stack {
-			if a.Stack[i] != b.Stack[i] {
+		from := 0
+		if i > 0 && k.Rec[i-1].Op == opGAS && k.Rec[i-1].Depth == a.Depth {
+			from = 1
+		}
+		for j := from; j < len(a.Stack); j++ {
+			if a.Stack[j] != b.Stack[j] {
 				return false
 			}
 		}
 		return true
 	}
 	i := 0
-	for i < n && same(k.Rec[i], g.Rec[i]) {
+	for i < n && same(i) {
 		i++
 	}
 	win := func(r []stepRec) []string {
@@ -111,9 +120,20 @@ func firstDivergence(w *World) map[string]interface{} {
 		return o
 	}
 	if i == n && len(k.Rec) == len(g.Rec) {
-		return map[string]interface{}{"traces": fmt.Sprintf("identical for all %d steps (instruction, pc, depth, top of stack)", n)}
+		last := "no-steps"
+		if n > 0 {
+			last = "after-" + opName(k.Rec[n-1].Op)
+		}
+		return last, map[string]interface{}{"traces": fmt.Sprintf("identical for all %d steps (instruction, pc, depth, top of stack)", n)}
 	}
-	return map[string]interface{}{"first_divergent_step": i, "kvm_steps": win(k.Rec), "reference_steps": win(g.Rec),
+	// the instruction whose effect differs is the one executed before the first differing step
+	sus := "first-step"
+	if i > 0 {
+		sus = opName(k.Rec[i-1].Op)
+	} else if n > 0 {
+		sus = opName(k.Rec[0].Op)
+	}
+	return sus, map[string]interface{}{"first_divergent_step": i, "kvm_steps": win(k.Rec), "reference_steps": win(g.Rec),
 		"note": "stack shown before the instruction executes; gas differs by design"}
 }
 
@@ -257,15 +277,22 @@ func judge(c *core.Case, w *World, gen string) *Outcome {
 	run.Count("compared_with_reference", 1)
 	run.Count("compared_"+set, 1)
 	if key, what := diffOutcomes(w, k1, g, false); key != "" {
+		sus, div := firstDivergence(w)
 		if g.EcrecHighS {
 			// Yellow Paper, appendix E: ECREC accepts 0 < s < secp256k1n; only transaction
 			// signatures are restricted to the lower half (EIP-2). Kept under its own key.
 			c.Violation("precompile:ecrecover-rejects-high-s", "a program calling ecrecover with s above half the group order: "+what,
-				wit(map[string]interface{}{"divergence": firstDivergence(w), "kvm": summary(k1), "reference": summary(g)}))
+				wit(map[string]interface{}{"divergence": div, "kvm": summary(k1), "reference": summary(g)}))
 			return k1
 		}
-		c.Violation("differs-from-reference:"+key+":"+suspectOp(w, k1, g), what, wit(map[string]interface{}{"divergence": firstDivergence(w),
-			"kvm": summary(k1), "reference": summary(g)}))
+		if k1.RDataAlias && (sus == "RETURNDATACOPY" || strings.HasPrefix(sus, "after-")) {
+			// EIP-211: the buffer is the output of the last call; here it is the caller's own
+			// memory (identity precompile returning its input slice) and changes with it.
+			c.Violation(keyRDataAlias, "return data read after the caller wrote to its own memory: "+what,
+				wit(map[string]interface{}{"divergence": div, "kvm": summary(k1), "reference": summary(g)}))
+			return k1
+		}
+		c.Violation("differs-from-reference:"+key+":"+sus, what, wit(map[string]interface{}{"divergence": div, "kvm": summary(k1), "reference": summary(g)}))
 		return k1
 	}
 	if k1.ErrClass != g.ErrClass {
@@ -300,32 +327,4 @@ func summary(o *Outcome) map[string]interface{} {
 	sort.Strings(fc)
 	return map[string]interface{}{"status": o.Status, "error": o.ErrText, "return": clip(o.Ret), "leftover_gas": o.Left, "steps": o.Steps,
 		"frames": o.Frames, "max_depth": o.MaxDepth, "frame_errors": fc, "logs": len(o.Logs)}
-}
-
-// suspectOp names the instruction at the first divergent step (part of the key so
-// that different defects are not folded into one).
-func suspectOp(w *World, k, g *Outcome) string {
-	kr := runKVM(w, true)
-	gr := runRef(w, true)
-	n := len(kr.Rec)
-	if len(gr.Rec) < n {
-		n = len(gr.Rec)
-	}
-	for i := 0; i < n; i++ {
-		a, b := kr.Rec[i], gr.Rec[i]
-		d := a.Depth != b.Depth || a.PC != b.PC || a.Op != b.Op || len(a.Stack) != len(b.Stack) || (a.Err == "") != (b.Err == "")
-		for j := 0; !d && j < len(a.Stack); j++ {
-			d = a.Stack[j] != b.Stack[j]
-		}
-		if d {
-			if i > 0 {
-				return opName(kr.Rec[i-1].Op)
-			}
-			return opName(a.Op)
-		}
-	}
-	if n > 0 {
-		return "after-" + opName(kr.Rec[n-1].Op)
-	}
-	return "no-steps"
 }
